@@ -12,6 +12,9 @@ DIGEST = None
 
 
 def ensure_pinned_env():
+    # VERIF_HASHSEED lets the determinism self-test run the whole check under another hash seed
+    if os.environ.get('VERIF_HASHSEED'):
+        PINNED['PYTHONHASHSEED'] = os.environ['VERIF_HASHSEED']
     """Re-exec the interpreter once so that hash randomisation and BLAS
     threading are fixed before anything is imported."""
     if all(os.environ.get(k) == v for k, v in PINNED.items()):
